@@ -1,5 +1,205 @@
-import Nstd.Callback.Model
-import Nstd.Callback.Spec
+import Nstd.Callback.LemmasTop
+/-
+  Property C12 — signals reach exactly the connected slots, safely under re-entrancy.
+
+  `machine` is the model of Callback.cpp (Model.lean), `Spec.machine` the snapshot
+  specification (Spec.lean); both are run by the same program evaluator `exec` (the `emit`
+  template + the slot bodies = scripts of connect / disconnect / emit / delete listener /
+  delete emitter actions indexed by (listener, slot, invocation number)).  `runOps` runs a
+  list of top-level actions, each to completion with its own fuel, as the driver does.
+  Every theorem is for all programs `P`, all numbers of emitters/listeners, all action lists
+  and all fuel (when the fuel runs out both evaluators stop at the same point, so the
+  statements hold without a side condition).
+
+  The proof is a simulation: `Sim m s K` (Inv.lean) relates a model state `m` — three slot
+  states, dirty flags, the stack of activation frames with `next`/`invalidated` — to a
+  specification state `s` and carries the stack `K` of the emission loops in progress; each
+  of the nine primitives preserves it (Lemmas*.lean), `exec_sim` (Eval.lean) lifts that to
+  programs of arbitrary nesting.
+-/
 namespace Nstd.Callback
-theorem placeholder : (State.create 3 3).frames = [] := rfl
+open Spec
+
+/-- **emit_refines.**  For every program and every history of top-level actions the invocation
+    log of the model of Callback.cpp is the invocation log of the specification: an emission
+    invokes, in connection order, exactly the connections made before the outermost emission of
+    that signal in progress began and still live at their turn. -/
+theorem emit_refines (P : Prog) (ne nl fuel : Nat) (ops : List Action) :
+    (runOps machine P fuel (Run.init (State.create ne nl)) ops).log =
+      (runOps Spec.machine P fuel (Run.init (SState.create ne nl)) ops).log :=
+  (runOps_rel P fuel ops (init_rel ne nl)).log
+
+/-- the same from any pair of related states in the middle of arbitrarily nested emissions
+    (`K` = the loops in progress), for any script -/
+theorem emit_refines_nested (P : Prog) (fuel : Nat) (K : MStack) (script : List Action)
+    (r₁ : Run State) (r₂ : Run SState) (h : RunRel Sim K r₁ r₂) :
+    (exec machine P fuel r₁ (.acts script)).log = (exec Spec.machine P fuel r₂ (.acts script)).log ∧
+      RunRel Sim K (exec machine P fuel r₁ (.acts script)) (exec Spec.machine P fuel r₂ (.acts script)) :=
+  have hr := (exec_sim simOK P (fun _ _ _ _ _ => trivial) fuel).1 K script r₁ r₂ (fun _ _ => trivial) h
+  ⟨hr.log, hr⟩
+
+/-- the emission loop itself: from related states the rest of an emission produces the same log
+    and ends in related states -/
+theorem emit_refines_loop (P : Prog) (fuel : Nat) (K : MStack) (fid idx : Nat) (eg : Nat × Nat) (snap : List Nat)
+    (r₁ : Run State) (r₂ : Run SState) (h : RunRel Sim (((fid, idx), (eg, snap)) :: K) r₁ r₂) :
+    (exec machine P fuel r₁ (.loop fid idx)).log = (exec Spec.machine P fuel r₂ (.loop eg snap)).log := by
+  obtain ⟨_, _, hr⟩ := (exec_sim simOK P (fun _ _ _ _ _ => trivial) fuel).2 K fid idx eg snap r₁ r₂ h
+  exact hr.log
+
+/-- **Safety.**  No run ever touches freed memory: the evaluator never invokes a slot of a
+    destroyed listener and never reads the slot list of a destroyed emitter (`bad`), the model
+    never reaches a destroyed emitter from `~Listener` / `~SignalActivation` nor a destroyed
+    listener from `~Emitter` (`fault`), whatever the slots do (connect, disconnect, emit
+    recursively, destroy listeners or emitters, their own included). -/
+theorem no_use_after_free (P : Prog) (ne nl fuel : Nat) (ops : List Action) :
+    (runOps machine P fuel (Run.init (State.create ne nl)) ops).bad = false ∧
+      (runOps machine P fuel (Run.init (State.create ne nl)) ops).m.fault = false :=
+  have h := runOps_rel P fuel ops (init_rel ne nl)
+  ⟨h.bad₁, h.sim.nofault⟩
+
+/-- **never_after_disconnect_or_destroy.**  Whenever the emission loop of the model decides to
+    invoke slot `x` of listener `l` (in any state reachable in the middle of any nesting of
+    emissions), that connection is live in the specification — it was connected and has been
+    neither disconnected nor lost its listener or emitter — the listener and the emitter
+    exist, and the listener's own bookkeeping still lists the pair. -/
+theorem never_after_disconnect_or_destroy {m : State} {s : SState} {K : MStack} {fid idx e g : Nat}
+    {snap : List Nat} {l x p' : Nat} (h : Sim m s (((fid, idx), ((e, g), snap)) :: K))
+    (hcall : machine.next m fid idx = .call l x p') :
+    s.eAlive e = true ∧ s.lAlive l = true ∧ (∃ c ∈ (s.sig e g).live, c.receiver = l ∧ c.slot = x) ∧
+      (m.emitters e).isSome = true ∧ ∃ li, m.listeners l = some li ∧ (g, x) ∈ li.sigs e := by
+  have hn := sim_next h
+  rw [hcall] at hn
+  cases hs : Spec.machine.next s (e, g) snap with
+  | done => rw [hs] at hn; exact absurd hn (by simp [StepRel])
+  | fault => rw [hs] at hn; exact absurd hn (by simp [StepRel])
+  | call l' x' q' =>
+    rw [hs] at hn
+    obtain ⟨rfl, rfl, hal, _⟩ := hn
+    simp only [Spec.machine, Spec.next] at hs
+    by_cases hea : s.eAlive e = true
+    · simp only [hea, if_true] at hs
+      cases hnl : nextLive (s.sig e g).live snap with
+      | none => rw [hnl] at hs; cases hs
+      | some cr =>
+        obtain ⟨c, rest⟩ := cr
+        rw [hnl] at hs
+        simp only [Step.call.injEq] at hs
+        obtain ⟨hr, hx, _⟩ := hs
+        have hcm := (nextLive_some hnl).1
+        simp only [machine] at hal
+        have hlA : s.lAlive l = true := by rw [h.abs.lAlive]; exact hal
+        have heA : (m.emitters e).isSome = true := by rw [← h.abs.eAlive]; exact hea
+        refine ⟨hea, hlA, ⟨c, hcm, hr, hx⟩, heA, ?_⟩
+        cases hli : m.listeners l with
+        | none => rw [hli] at hal; simp at hal
+        | some li =>
+          refine ⟨li, rfl, ?_⟩
+          have hcnt := h.b.count l li e g x hli
+          rw [h.abs.live] at hcm
+          cases hd : m.data e g with
+          | none => rw [hd] at hcm; simp [liveOf] at hcm
+          | some d =>
+            rw [hd] at hcm hcnt
+            obtain ⟨y, hy, hnd, rfl⟩ := mem_liveOf hcm
+            have hpos : 0 < d.slots.countP (fun z => z.isMatch l x) := by
+              rw [List.countP_pos_iff]
+              refine ⟨y, hy, ?_⟩
+              simp only [Slot.toConn] at hr hx
+              simp [Slot.isMatch, hr, hx, hnd]
+            have : 0 < (li.sigs e).count (g, x) := by rw [hcnt]; exact hpos
+            exact List.count_pos_iff.1 this
+    · simp only [hea, if_false] at hs
+      cases hs
+
+/-- what "live in the specification" means: a disconnect removes the oldest connection of that
+    receiver/slot, destroying a listener or an emitter removes all of theirs -/
+theorem spec_live_after_destroy (s : SState) :
+    (∀ l e g c, c ∈ ((Spec.delL l s).sig e g).live → c.receiver ≠ l) ∧
+    (∀ e g, ((Spec.delE e s).sig e g).live = []) ∧
+    (∀ e g l x, ((Spec.disconnect e g l x s).sig e g).live = removeOldest l x (s.sig e g).live) := by
+  refine ⟨?_, ?_, ?_⟩
+  · intro l e g c hc
+    simp only [Spec.delL, List.mem_filter] at hc
+    simpa using hc.2
+  · intro e g; simp [Spec.delE, Sig.empty]
+  · intro e g l x; simp [Spec.disconnect, SState.setSig]
+
+/-- **bookkeeping_consistent.**  After any history of top-level actions (every emission has
+    ended): no activation is left; every slot list is clean — no activation pointer, dirty flag
+    off, every entry `connected` (nothing `connecting` or `disconnected` remains) —; every
+    entry's receiver exists (no dangling receiver); the listener side holds, for every emitter,
+    exactly as many (signal, slot) pairs as the emitter side has entries for that listener and
+    slot (nothing at all under a destroyed emitter); and the emitter side is, in order, the list
+    of live connections of the specification. -/
+theorem bookkeeping_consistent (P : Prog) (ne nl fuel : Nat) (ops : List Action) :
+    let m := (runOps machine P fuel (Run.init (State.create ne nl)) ops).m
+    let s := (runOps Spec.machine P fuel (Run.init (SState.create ne nl)) ops).m
+    m.frames = [] ∧
+    (∀ e g d, m.data e g = some d →
+      d.activation = none ∧ d.dirty = false ∧
+      ∀ x ∈ d.slots, x.state = .connected ∧ (m.listeners x.receiver).isSome = true) ∧
+    (∀ l li e g x, m.listeners l = some li →
+      (li.sigs e).count (g, x) = match m.data e g with
+        | none => 0
+        | some d => d.slots.countP (fun y => y.receiver == l && y.slot == x)) ∧
+    (∀ l li e, m.listeners l = some li → m.emitters e = none → li.sigs e = []) ∧
+    (∀ e g, (s.sig e g).live = match m.data e g with
+        | none => []
+        | some d => d.slots.map Slot.toConn) := by
+  intro m s
+  have h : Sim m s [] := (runOps_rel P fuel ops (init_rel ne nl)).sim
+  obtain ⟨hfr, hq⟩ := sim_quiescent h
+  refine ⟨hfr, ?_, ?_, ?_, ?_⟩
+  · intro e g d hd
+    obtain ⟨ha, hdirty, hall⟩ := hq e g d hd
+    refine ⟨ha, hdirty, fun x hx => ⟨hall x hx, ?_⟩⟩
+    exact h.b.recv e g d hd x hx (by rw [hall x hx]; simp)
+  · intro l li e g x hl
+    rw [h.b.count l li e g x hl]
+    cases hd : m.data e g with
+    | none => rfl
+    | some d =>
+      simp only
+      apply List.countP_congr
+      intro y hy
+      have := (hq e g d hd).2.2 y hy
+      simp [Slot.isMatch, this]
+  · intro l li e hl he
+    apply eq_nil_of_count_zero
+    intro a
+    have := h.b.count l li e a.1 a.2 hl
+    simpa [State.data, he] using this
+  · intro e g
+    rw [h.abs.live]
+    cases hd : m.data e g with
+    | none => rfl
+    | some d =>
+      simp only [liveOf, liveSlots]
+      congr 1
+      apply List.filter_eq_self.2
+      intro y hy
+      have := (hq e g d hd).2.2 y hy
+      simp [this]
+
+/-! ### non-vacuity: a concrete program in which a slot disconnects, re-connects and disconnects
+    itself inside an emission (the input of defect D18), then is not invoked any more -/
+
+def d18 : Prog :=
+  { script := fun l s k => if l = 0 ∧ s = 0 ∧ k = 0 then
+      [.disconnect 0 0 0 0, .connect 0 0 0 0, .disconnect 0 0 0 0, .connect 0 0 1 1, .emit 0 0] else [] }
+
+def d18ops : List Action := [.connect 0 0 0 0, .connect 0 0 1 0, .emit 0 0, .emit 0 0, .delL 1, .delE 0]
+
+example : (runOps machine d18 20 (Run.init (State.create 1 2)) d18ops).log.reverse =
+    [(0, 0), (1, 0), (1, 0), (1, 0), (1, 1)] := by decide
+
+example : (runOps Spec.machine d18 20 (Run.init (SState.create 1 2)) d18ops).log.reverse =
+    [(0, 0), (1, 0), (1, 0), (1, 0), (1, 1)] := by decide
+
+example : (runOps machine d18 20 (Run.init (State.create 1 2)) d18ops).oof = false := by decide
+
+/-- the hypothesis of `never_after_disconnect_or_destroy` / `emit_refines_nested` is met by the
+    initial states (and, by `emit_refines_nested`, by everything reachable from them) -/
+example : RunRel Sim [] (Run.init (State.create 3 3)) (Run.init (SState.create 3 3)) := init_rel 3 3
+
 end Nstd.Callback
